@@ -374,3 +374,29 @@ Proof.
       repeat match goal with H : _ /\ _ |- _ => destruct H end; try congruence;
       match goal with H : m_buf _ = [] |- _ => rewrite H, app_nil_r in Hb end; assumption.
 Qed.
+
+(** * re-entrancy: when the body decoder finishes on a connection whose request was written, the
+      protocol is already QUIESCENT (and, in the code, the per-request attributes already cleared)
+      at the moment the consumer is told; a request the application issues from there is accepted
+      and runs on a clean protocol ([two_requests]) *)
+Lemma consumer_told_when_quiescent : forall s,
+  x_pst s = SWaiting -> m_gone (x_in s) = false -> m_head (x_in s) = true -> m_fin (x_in s) = false ->
+  m_resp (x_in s) = RConnected ->
+  let s' := xstep false s (XP PFinish) in
+  x_pst s' = SQuiescent
+  /\ m_closed (x_in s') = m_closed (x_in s) ++ [reason_of (m_frame (x_in s)) true]
+  /\ hit TrClose s s' = is_nil_list (m_closed (x_in s)).
+Proof.
+  intros [pst chained [ever gone head fr fin resp buf fired deliv closed recv asked] direct stops orphan]
+         Hp Hg Hh Hf Hr. cbn in *. subst. cbn.
+  repeat split. unfold hit. cbn. destruct closed; reflexivity.
+Qed.
+
+Lemma second_request_on_clean_protocol : forall hm1 cs1 t1 tr hm2 tx2 ops2 s2,
+  snd (two_requests hm1 cs1 t1 tr hm2 tx2 ops2) = Ran s2 ->
+  s2 = play false hm2 ops2 pinit (if tx2 then xinit_transmitting else xinit_waiting).
+Proof.
+  intros hm1 cs1 t1 tr hm2 tx2 ops2 s2. unfold two_requests.
+  destruct (run_until tr _ xinit_waiting) as [s1 [p|]]; cbn [snd]; [|discriminate].
+  destruct p; try discriminate. now intros [=].
+Qed.
